@@ -382,7 +382,13 @@ func (h *H) record(campaign string, c any, info *Info, f *Failure) bool {
 	if f == nil {
 		return false
 	}
-	if _, ok := h.known[h.Prop+"|"+f.Key]; ok {
+	_, isKnown := h.known[h.Prop+"|"+f.Key]
+	if !isKnown && os.Getenv("VERIF_TRIAGE") != "" {
+		// development aid: collect every failure key instead of stopping
+		isKnown = true
+		f.Key = "TRIAGE " + f.Key
+	}
+	if isKnown {
 		h.out.KnownHits[f.Key]++
 		if _, ok := h.out.KnownSamples[f.Key]; !ok {
 			h.out.KnownSamples[f.Key] = map[string]any{"campaign": campaign, "msg": f.Msg, "case": c}
